@@ -156,7 +156,13 @@ def safe_callable_names(root: ast.Module) -> Collection[str]:
     """
     defined_names = {node.id for node in core.walk(root, ast.Name(ctx=ast.Store))}
     function_defs = list(core.walk(root, (ast.FunctionDef, ast.AsyncFunctionDef)))
-    safe_callables = set(constants.SAFE_CALLABLES)
+    # A builtin name that the module defines itself no longer refers to the builtin
+    safe_callables = (
+        set(constants.SAFE_CALLABLES)
+        - defined_names
+        - {node.name for node in function_defs}
+        - {node.name for node in core.walk(root, ast.ClassDef)}
+    )
     safe_callable_nodes = set()
     changes = True
     while changes:
